@@ -11,6 +11,11 @@ Extracted by AST pattern matching from hsms/protocol.py (class HsmsProtocol):
         self.send_separate_req()                             -> "send_separate_req"
   * wiring : `self._connection_state.<state attr>.events.<enter|leave>.register(self.<handler>)` in `__init__`
     as (STATE NAME = attr upper-cased, event, handler)
+  * onStateConnect / onStateDisconnect / onLinktestTimer : the linktest-timer handlers as statement tags
+        self._start_linktest_timer() -> "start_linktest_timer";  self.send_linktest_req() -> "send_linktest_req"
+        if self._linktest_timer: self._linktest_timer.cancel() -> "cancel_linktest_timer";  self._linktest_timer = None -> "clear_linktest_timer"
+        if self._settings.is_active: <start the select thread> -> "if_active start_select_thread"
+  * timeoutRefs : which files (outside secs/) read `timeouts.t5 … t8`;  t7Performers : who performs the `timeoutT7` transition
 Consumed by Model/Hsms.lean (the connect / close steps execute these lists) and by the accept-race theorem of C05
 (the accepting thread's program IS `onConnected`, so reverting the order of `connect()` and `_thread.start()` re-opens the proof).
 """
@@ -57,6 +62,61 @@ def _body(cls, name):
     return out
 
 
+def _small_tag(st):
+    """statements of the linktest-timer handlers"""
+    if isinstance(st, ast.Expr) and isinstance(st.value, ast.Constant) and isinstance(st.value.value, str):
+        return None
+    if isinstance(st, ast.Expr) and isinstance(st.value, ast.Call) and not st.value.args and not st.value.keywords:
+        fn = G.P.dotted(st.value.func)
+        if fn in ("self.send_linktest_req", "self._start_linktest_timer"):
+            return fn[5:].lstrip("_")
+    if isinstance(st, ast.Assign) and len(st.targets) == 1 and G.P.dotted(st.targets[0]) == "self._linktest_timer" \
+            and isinstance(st.value, ast.Constant) and st.value.value is None:
+        return "clear_linktest_timer"
+    if isinstance(st, ast.If) and G.P.dotted(st.test) == "self._linktest_timer" and not st.orelse and len(st.body) == 1 \
+            and isinstance(st.body[0], ast.Expr) and isinstance(st.body[0].value, ast.Call) \
+            and G.P.dotted(st.body[0].value.func) == "self._linktest_timer.cancel":
+        return "cancel_linktest_timer"
+    if isinstance(st, ast.If) and G.P.dotted(st.test) == "self._settings.is_active" and not st.orelse:
+        src = " ".join(ast.unparse(x) for x in st.body)
+        if "self._send_select_req_thread" in src and ".start()" in src:
+            return "if_active start_select_thread"
+    raise G.P.Untranslatable(f"unrecognised statement `{ast.unparse(st)[:80]}`")
+
+
+def _small_body(cls, name):
+    return [t for t in (_small_tag(st) for st in _method(cls, name).body) if t is not None]
+
+
+def _timer_facts():
+    """which source files read `timeouts.t5 … t8`, and which functions perform the table's `timeoutT7` transition"""
+    import os
+    refs = {f"t{n}": [] for n in (5, 6, 7, 8)}
+    performers = []
+    root = G.src("")
+    for dirpath, _dirs, files in os.walk(root):
+        for f in sorted(files):
+            if not f.endswith(".py"):
+                continue
+            rel = os.path.relpath(os.path.join(dirpath, f), root)
+            if rel.startswith(("secs" + os.sep, "secs/")):
+                continue
+            tree = G.parse(rel)
+            for node in ast.walk(tree):
+                if isinstance(node, ast.Attribute) and node.attr in refs and (G.P.dotted(node.value) or "").endswith("timeouts"):
+                    if rel not in refs[node.attr]:
+                        refs[node.attr].append(rel)
+            for fn in ast.walk(tree):
+                if isinstance(fn, (ast.FunctionDef, ast.AsyncFunctionDef)):
+                    for node in ast.walk(fn):
+                        if isinstance(node, ast.Call):
+                            d = G.P.dotted(node.func) or ""
+                            if d.endswith(".timeoutT7") or (d.endswith("_perform_transition") and node.args
+                                                             and isinstance(node.args[0], ast.Constant) and node.args[0].value == "timeoutT7"):
+                                performers.append(f"{rel}:{fn.name}")
+    return {k: sorted(v) for k, v in refs.items()}, sorted(performers)
+
+
 def unit_HsmsProto():
     tree = G.parse("hsms/protocol.py")
     cls = G.find_class(tree, "HsmsProtocol")
@@ -75,6 +135,9 @@ def unit_HsmsProto():
     def lst(xs):
         return "[" + ", ".join('"' + x + '"' for x in xs) + "]"
 
+    small = {n: _small_body(cls, n) for n in ("_on_state_connect", "_on_state_disconnect", "_on_linktest_timer")}
+    refs, performers = _timer_facts()
+
     out = [G.HEADER.format(src="secsgem/hsms/protocol.py (HsmsProtocol.__init__, _on_connected, _on_disconnecting, _on_disconnected)"),
            "namespace SecsModel.Gen.HsmsProto\n",
            "/-- statements of `HsmsProtocol._on_connected`, in source order -/",
@@ -86,9 +149,18 @@ def unit_HsmsProto():
            "/-- `self._connection_state.<state>.events.<event>.register(self.<handler>)` in `__init__`: (STATE, event, handler) -/",
            "def wiring : List (String × String × String) := ["
            + ", ".join(f'("{s}", "{e}", "{h}")' for s, e, h in wiring) + "]\n",
+           "/-- statements of `_on_state_connect` (CONNECTED.enter), `_on_state_disconnect` (CONNECTED.leave), `_on_linktest_timer` -/",
+           f"def onStateConnect : List String := {lst(small['_on_state_connect'])}",
+           f"def onStateDisconnect : List String := {lst(small['_on_state_disconnect'])}",
+           f"def onLinktestTimer : List String := {lst(small['_on_linktest_timer'])}\n",
+           "/-- source files (outside secs/) that read `timeouts.t5 … t8` -/",
+           "def timeoutRefs : List (String × List String) := ["
+           + ", ".join(f'("{k}", {lst(v)})' for k, v in sorted(refs.items())) + "]\n",
+           "/-- functions that perform the `timeoutT7` transition of the connection state machine (file:function) -/",
+           f"def t7Performers : List String := {lst(performers)}\n",
            "end SecsModel.Gen.HsmsProto\n"]
     G.write("HsmsProto", "\n".join(out))
-    G.FACTS["HsmsProto"] = {"bodies": bodies, "wiring": wiring}
+    G.FACTS["HsmsProto"] = {"bodies": bodies, "wiring": wiring, "small": small, "timeoutRefs": refs, "t7Performers": performers}
 
 
 UNITS = {"HsmsProto": unit_HsmsProto}
